@@ -159,13 +159,15 @@ def _names_in(sx, acc):
     return acc
 
 
-def mirror_function_issue(drv, kind, ru, order, args, body_sx):
+def mirror_function_issue(drv, kind, ru, order, args, body_sx, resp=None):
     """statement-by-statement comparison of a function the implementation generated (its exported skeleton) with
     the function the verified mirror generator (Codegen.gen_rhs / gen_monitor / gen_euler, MirrorValid.v) produces
     for the same model: same formals, same unpack statements in the same order with the same indices, same
     assignments in the same order, same slots written in the same places from the same names.  A let of the
     implementation may read fewer names than the definition mentions (sympy drops 0*x)."""
-    if kind == "missing":
+    if resp is not None:
+        r = resp
+    elif kind == "missing":
         r = drv.ask(["mirrormissing", "1" if ru else "0", order[0], [[n, i] for n, i in order[1]]])
     else:
         r = drv.ask(["mirror", kind, "1" if ru else "0", order])
@@ -186,7 +188,7 @@ def mirror_function_issue(drv, kind, ru, order, args, body_sx):
         elif a[0] == "let":
             if a[1] != b[1]:
                 return f"statement {k}: implementation assigns {a[1]}, mirror {b[1]}"
-            if not set(a[2]) <= set(b[2]) | {"t", "time"}:
+            if not a[1].endswith("_linearized") and not set(a[2]) <= set(b[2]) | {"t", "time"}:
                 return f"statement {k}: {a[1]} reads {sorted(set(a[2]) - set(b[2]))}, which its definition does not mention"
         elif a[0] == "store":
             if int(a[1]) != int(b[1]) or _names_in(a[2], set()) != _names_in(b[2], set()):
@@ -194,8 +196,8 @@ def mirror_function_issue(drv, kind, ru, order, args, body_sx):
     return None
 
 
-def check_mirror_function(rep, drv, text, kind, ru, order, args, body_sx):
-    issue = mirror_function_issue(drv, kind, ru, order, args, body_sx)
+def check_mirror_function(rep, drv, text, kind, ru, order, args, body_sx, resp=None):
+    issue = mirror_function_issue(drv, kind, ru, order, args, body_sx, resp)
     if issue is None:
         rep.count("functions_equal_to_the_verified_mirror")
         return True
